@@ -45,8 +45,50 @@ def _writer_total(p: Path, stream: str) -> Sym:
     return _sum(parts)
 
 
+def _make_unfold(mod):
+    """_len_single(n, <const type>, V, serialize_empty=<const>) is replaced by its own body when, under those constants, the
+    function returns the same expression on every path (e.g. the always-emitted map entry): the sizer may
+    then be written either through the helper or as the explicit tag + length prefix + payload sum"""
+    from ..sym import subst
+    cache: Dict[Any, Any] = {}
+
+    def unfold(name, args, kw):
+        if name != "_len_single" or not mod.has(name) or len(args) != 3:
+            return None
+        kwd = dict(kw)
+        se, wr = kwd.get("serialize_empty", C(False)), kwd.get("wraps", C(""))
+        if args[1][0] != "c" or se != C(True) or wr[0] != "c":
+            return None
+        key = (args[1], se, wr)
+        if key not in cache:
+            fn = mod.func(name)
+            inl = {"_len_preprocessed_single": (mod, mod.func("_len_preprocessed_single"))} if mod.has("_len_preprocessed_single") else {}
+            try:
+                paths = Interp(mod, bindings={N("proto_type"): args[1][1], N("serialize_empty"): True, N("wraps"): wr[1]}, inline=inl).run(fn)
+            except AnalysisError:
+                paths = []
+            # every path returns the same expression: the result does not depend on anything the function decides
+            ok = bool(paths) and all(p.outcome == "return" and p.value is not None and p.value == paths[0].value for p in paths)
+            cache[key] = paths[0].value if ok else None
+        body = cache[key]
+        if body is None:
+            return None
+        return subst(body, lambda t: args[0] if t == N("field_number") else (args[2] if t == N("value") else None))
+
+    return unfold
+
+
 def rule_L1(ctx) -> None:
+    from .. import lenalg
     mod = ctx.repo.mod(M_INIT)
+    lenalg.UNFOLD = _make_unfold(mod)
+    try:
+        _rule_L1(ctx, mod)
+    finally:
+        lenalg.UNFOLD = None
+
+
+def _rule_L1(ctx, mod) -> None:
     dump = mod.func("Message.dump")
     ln = mod.func("Message.__len__")
     ctx.analysed("Message.dump", "Message.__len__")
@@ -62,11 +104,15 @@ def rule_L1(ctx) -> None:
         ctx.proved("L1", "Message.__len__~Message.dump", mod.loc(ln), "sizer defined through the writer")
         return
 
+    from ..fieldloop import VALUE
+    is_dict = ("call", N("isinstance"), (VALUE, N("dict")), ())
     for t in TYPES_PLUS:
+        # a field's value is a dict exactly when the field is a map (map_field is the only constructor with a dict default)
+        shape = {is_dict: t == "map"}
         wi = interp_for(mod, bindings=type_binding(t), force_bool_kwargs=["serialize_empty"],
-                        assume=_delimit_false(mod, dump, delimit))
+                        assume={**_delimit_false(mod, dump, delimit), **shape})
         wpaths = wi.run(dump)
-        si = interp_for(mod, bindings=type_binding(t), force_bool_kwargs=["serialize_empty"])
+        si = interp_for(mod, bindings=type_binding(t), force_bool_kwargs=["serialize_empty"], assume=shape)
         spaths = si.run(ln)
         writer = [Summary(canon_val(p.valuation), outcome_class(p), _writer_total(p, stream), 0) for p in wpaths]
         sizer = []
